@@ -1199,6 +1199,14 @@ struct ssl
 
     unsigned char sessionIdLen;
     unsigned char sessionId[SSL_MAX_SESSION_ID_SIZE];
+    unsigned char sessionCacheRef;    /* Server: this connection holds a
+                                         reference (inUse) on the session
+                                         cache entry named by sessionId,
+                                         because it registered or resumed it.
+                                         sessionId alone proves nothing: it
+                                         can be a value the client chose
+                                         (ticket resumption, TLS 1.3 legacy
+                                         id, a lookup that did not happen) */
     sslSessionId_t *sid;
     char *expectedName;               /* Clients: The expected cert subject name
                                               passed to NewClient Session
